@@ -908,6 +908,12 @@ func checkMetricConsistency(
 				name, dtoMetric, quantileLabel,
 			)
 		}
+		if dtoMetric.Histogram != nil && labelName == bucketLabel {
+			return fmt.Errorf(
+				"collected metric %q { %s} must not have an explicit %q label",
+				name, dtoMetric, bucketLabel,
+			)
+		}
 		if !utf8.ValidString(labelPair.GetValue()) {
 			return fmt.Errorf(
 				"collected metric %q { %s} has a label named %q whose value is not utf8: %#v",
